@@ -6,7 +6,8 @@
     address parsing, data directory), which enter as the oracle record [O]. *)
 From Coq Require Import List ZArith String.
 From AGH Require Import Model.Migrate Proofs.Migrate Proofs.MigrateFrame Proofs.MigrateSim
-  Proofs.MigrateTable Gen.MigrateTable Proofs.MigrateFrameDns Proofs.MigrateElems.
+  Proofs.MigrateTable Gen.MigrateTable Proofs.MigrateFrameDns Proofs.MigrateElems
+  Model.MigrateLoad Proofs.MigrateLoadable Proofs.MigrateLoadableC.
 Import ListNotations.
 Local Open Scope string_scope.
 Local Open Scope Z_scope.
@@ -100,20 +101,45 @@ Theorem C13_path_independent : forall O top t k a,
 Proof. exact migrate_path_independent. Qed.
 Print Assumptions C13_path_independent.
 
-(** The conditional form is as far as it goes.  The unconditional reading
-    (also when the one run fails, the split run fails alike) is false:
-    [schema_version: 9, rlimit_nofile: 2.0] fails in one run (step 11 rejects
-    the float64) and succeeds when split at version 10, because the file
-    written at version 10 holds [2].  Known finding path-dependent-whole-float. *)
-Theorem C13_path_independent_unconditional_refuted :
-  exists O top t k, version_of (input_map top) < k < t /\
-    migrate O top t = OErr /\ exists c, split_run O top k t = ONew c.
-Proof. exact path_independent_unconditional_refuted. Qed.
-Print Assumptions C13_path_independent_unconditional_refuted.
+(** The unconditional reading (also when the one run fails, the split run
+    fails alike), for decoded documents ([plain_doc]: no Go-typed leftovers).
+    Before fix bb8b603 it was false ([schema_version: 9, rlimit_nofile: 2.0]
+    failed in one run and succeeded when split at version 10); [fieldVal] now
+    converts a whole float where an int is expected, the model follows
+    ([coerce]) and the former witness upgrades to the same file on both paths.
+    Proved: every case in which the one run does not fail.  Not yet proved:
+    "the one run fails => the split run fails" (needs the simulation in the
+    other direction); the statement stays visible and the harness checks it
+    on every split run. *)
+Definition C13_path_independent_unconditional_statement : Prop :=
+  path_independent_unconditional_statement.
 
-Theorem C13_path_independent_unconditional_false : ~ path_independent_unconditional_statement.
-Proof. exact path_independent_unconditional_false. Qed.
-Print Assumptions C13_path_independent_unconditional_false.
+Theorem C13_path_independent_unconditional_partial : forall O top t k,
+  version_of (input_map top) < k < t -> migrate O top t <> OErr ->
+  same_result (migrate O top t) (split_run O top k t).
+Proof. exact path_independent_unconditional_partial. Qed.
+Print Assumptions C13_path_independent_unconditional_partial.
+
+Example C13_whole_float_path_independent :
+  exists a c, migrate oracles0 (Some float_doc) 29 = ONew a /\
+    split_run oracles0 (Some float_doc) 10 29 = ONew c /\ norm_obj a = norm_obj c /\
+    get "os" a = Some (VObj [("group", VStr ""); ("rlimit_nofile", VInt 2); ("user", VStr "")]).
+Proof. exact whole_float_same. Qed.
+Print Assumptions C13_whole_float_path_independent.
+
+Example C13_fractional_float_rejected_on_both_paths :
+  let d := Some [("schema_version", VInt 9); ("rlimit_nofile", VFloat None "2.5")] in
+  migrate oracles0 d 29 = OErr /\ split_run oracles0 d 10 29 = OErr.
+Proof. exact fractional_float_rejected. Qed.
+Print Assumptions C13_fractional_float_rejected_on_both_paths.
+
+(** Why the statement speaks of decoded documents: a tree that already holds a
+    Go duration where a step reads a string depends on the path. *)
+Theorem C13_typed_input_path_dependent :
+  plain_doc (Some typed_doc) = false /\
+  migrate oracles0 (Some typed_doc) 29 = OErr /\ exists c, split_run oracles0 (Some typed_doc) 7 29 = ONew c.
+Proof. exact typed_input_path_dependent. Qed.
+Print Assumptions C13_typed_input_path_dependent.
 
 (** The same at the level of the step table, for any in-memory tree (typed
     values anywhere) and any range of steps: running the steps on the tree or
@@ -236,3 +262,36 @@ Example C13_clients_satisfiable :
     map (fun c => get "name" (zobj c)) l' = [Some (VStr "a"); Some (VStr "b"); Some (VStr "c")].
 Proof. exact doc3_clients_upgrade. Qed.
 Print Assumptions C13_clients_satisfiable.
+
+(** ** Output accepted by the loader
+
+    [loadable v m] (Model/MigrateLoad.v): the kind check the typed loader
+    applies to the keys the steps read or write, for a document of schema
+    version [v] (keys a later version introduces absent; null not accepted
+    where start-up dereferences a pointer).  Wanted: every successful upgrade
+    of a document loadable at its version is loadable at the target version
+    ([loadable_preserved_statement]).  Proved: the composition over the step
+    table, and the per-step lemma for the steps in [proved_steps]; the other
+    steps enter as the explicit hypothesis [unproved_steps_keep], which the
+    harness evaluates on every document it upgrades (Run/C13.v,
+    [loadable_kept]).  Values (duration syntax, addresses, known service ids)
+    are validated on the real code by the loader monitor's start-up stages. *)
+Definition C13_loadable_preserved_statement : Prop := loadable_preserved_statement.
+
+Theorem C13_loadable_preserved_partial : forall O, unproved_steps_keep O ->
+  forall cur tgt m m', (cur <= tgt <= 29)%nat ->
+    upgrade O cur tgt m = Ok m' -> loadable cur m = true -> loadable tgt m' = true.
+Proof. exact loadable_preserved_partial. Qed.
+Print Assumptions C13_loadable_preserved_partial.
+
+Example C13_loadable_satisfiable :
+  loadable 3 doc3_clients = true /\
+  exists a, migrate oracles0 (Some doc3_clients) 29 = ONew a /\ loadable 29 a = true /\ loadable 29 (norm_obj a) = true.
+Proof. exact loadable_doc3. Qed.
+Print Assumptions C13_loadable_satisfiable.
+
+Example C13_null_pointer_section_not_loadable :
+  loadable 29 [("schema_version", VInt 29); ("filtering", VNull)] = false /\
+  loadable 29 [("schema_version", VInt 29); ("dns", VNull)] = true.
+Proof. exact null_section_not_loadable. Qed.
+Print Assumptions C13_null_pointer_section_not_loadable.
